@@ -19,7 +19,8 @@
    * `phi` reads the operand paired with the label of the block control came from (first match; no match or no
      predecessor: no successor configuration).  PHIS OF ONE BLOCK ARE EXECUTED ONE AFTER THE OTHER; this coincides
      with the parallel reading (C14/RangeFix.v phi_assign) when no phi of a block reads the output of another phi of
-     the same block (`phis_indep`, CfgSemProofs.seq_phis_parallel); the validators are only applied to such functions. *)
+     the same block (`phis_indep` below; the exporter applies the validators only to such functions — this equivalence is
+     a modelling assumption, it is not proved here). *)
 From Coq Require Import ZArith NArith Bool List String Lia.
 From Verif Require Import Base.Word256.
 Import ListNotations.
